@@ -44,6 +44,9 @@ CLAIMED = {
     "C18": ("CrossHair/z3: a == b iff same kind and equal value fields for two symbolic artifacts with arbitrary spans; equal values hash equal (real __hash__ with an injective stand-in for the built-in)",
             "Trusted: Python's tuple hashing maps equal tuples to equal values. Bounds: Time a over 9 presence masks (quick) / all 128 (thorough) x Time b over all 128; years 0..9999; Duration amounts 0..10^4. Printed-form injectivity/round trip: see STR obligations when present.",
             "§5 C18"),
+    "C13": ("CrossHair/z3 over the expiry index of a stub clock: every point between two consecutive clock reads of the real parser (real rule base) on fixed texts; the parser runs untraced, the solver covers all k",
+            "Trusted: the parser reads time only through ctparse.timers.perf_counter; CrossHair's NoTracing semantics. Bounds: texts 'tomorrow 8pm', '9 9', '9 9 9' (quick) + 'mon 8', '9', '9 9 9 9' (thorough); constant scorer; integer clock ticks for timers.timeout.",
+            "§5 C13"),
 }
 
 NOT_YET = {}
